@@ -11,7 +11,7 @@ HARNESS = 'c11.cpp'
 SOURCES = ['src/geometry/Pose3D.cpp', 'src/geometry/Pose2D.cpp', 'src/geometry/Position2D.cpp', 'src/geometry/Position3D.cpp',
            'src/geometry/Twist2D.cpp', 'src/geometry/Twist3D.cpp', 'src/geometry/PoseAndTwist2D.cpp',
            'src/geometry/PoseAndTwist3D.cpp', 'src/geometry/Ellipse.cpp', 'src/transform/SmartRotation3D.cpp']
-PROOF_MODULES = ['RomeaProofs.Properties.C11']
+PROOF_MODULES = ['RomeaProofs.Properties.C11', 'RomeaProofs.Bridge.C11', 'RomeaProofs.Bridge.C11Cor']
 TRUSTED = ['Eigen::Affine3d::rotation() (polar factor via JacobiSVD) is a model parameter: the theorems assume it returns a '
            'rotation matrix unchanged; the driver uses the identity function and the tie compares within 1e-10 relative',
            'Eigen::JacobiSVD on the 2x2 covariance is a model parameter with the contract IsEig2 (orthonormal U, descending '
@@ -469,3 +469,30 @@ def oracle(case, out, stats):
             if s > 0 and c[0][0] * c[1][1] - c[0][1] * c[1][0] <= 1e-12 * s * s:
                 stats['ellipse_rank_deficient'] = stats.get('ellipse_rank_deficient', 0) + 1
     return fails
+
+
+# ------------------------------------------------------------------ stage G: the anchored functions themselves, translated (DESIGN.md 2.5b)
+BRIDGE_SPEC = {
+    'id': 'C11',
+    'headers': ['romea_core_common/math/Matrix.hpp'],
+    'sources': ['src/geometry/Pose3D.cpp', 'src/geometry/Twist3D.cpp', 'src/geometry/PoseAndTwist3D.cpp'],
+    'extra': ['namespace romea { namespace core {',
+              'template Eigen::Matrix<double, 3, 3> toSe2Covariance<double>(const Eigen::Matrix<double, 6, 6> &);',
+              'template Eigen::Matrix<double, 6, 6> toSe3Covariance<double>(const Eigen::Matrix<double, 3, 3> &);', '}}'],
+    'functions': [
+        {'cxx': 'toSe2Covariance', 'targs': 'double'},
+        {'cxx': 'toSe3Covariance', 'targs': 'double'},
+        {'cxx': 'toPose2D', 'sig': 'void (const romea::core::Pose3D &, romea::core::Pose2D &)'},
+        {'cxx': 'toPose2D', 'sig': 'romea::core::Pose2D (const romea::core::Pose3D &)', 'suffix': '_ret'},
+        {'cxx': 'toPosition3D', 'sig': 'void (const romea::core::Pose3D &, romea::core::Position3D &)'},
+        {'cxx': 'toPosition3D', 'sig': 'romea::core::Position3D (const romea::core::Pose3D &)', 'suffix': '_ret'},
+        {'cxx': 'toTwist2D', 'sig': 'void (const romea::core::Twist3D &, romea::core::Twist2D &)'},
+        {'cxx': 'toTwist2D', 'sig': 'romea::core::Twist2D (const romea::core::Twist3D &)', 'suffix': '_ret'},
+        {'cxx': 'toPoseAndTwist2D', 'sig': 'void ('},
+    ],
+}
+
+
+def regen(ctx):
+    import bridge
+    return bridge.regen_bridge(ctx, BRIDGE_SPEC)
